@@ -160,6 +160,32 @@ fn op_zts(n: usize, s: &[u8]) -> String {
     }
 }
 
+fn p_opt_str(s: Option<&String>) -> String {
+    match s {
+        Some(s) => format!("+ {}", hex(s.as_bytes())),
+        None => "-".into(),
+    }
+}
+
+/// C19: the id fields of the message parsed from `bs`
+fn op_ids(w: bool, bs: &[u8]) -> String {
+    let r = guard(|| match dlt_message(bs, None, w) {
+        Ok((_, ParsedMessage::Item(m))) => format!(
+            "OK sh={} ecu={} app={} ctx={}",
+            p_opt_str(m.storage_header.as_ref().map(|s| &s.ecu_id)),
+            p_opt_str(m.header.ecu_id.as_ref()),
+            p_opt_str(m.extended_header.as_ref().map(|e| &e.application_id)),
+            p_opt_str(m.extended_header.as_ref().map(|e| &e.context_id)),
+        ),
+        Ok(_) => "OTHER".to_string(),
+        Err(e) => p_error(&e),
+    });
+    match r {
+        Some(s) => s,
+        None => format!("PANIC{}", oracle(false, "panic")),
+    }
+}
+
 pub fn enc(m: &Message) -> Option<(Vec<u8>, u16)> {
     guard(|| (m.as_bytes(), m.byte_len()))
 }
@@ -594,6 +620,11 @@ pub fn dispatch(op: &str, t: &mut Toks) -> R<String> {
             let n: usize = t.num()?;
             let s = t.bytes()?;
             op_zts(n, &s)
+        }
+        "IDS" => {
+            let w = t.boolean()?;
+            let bs = t.bytes()?;
+            op_ids(w, &bs)
         }
         "ENC" => op_enc(&t.message()?),
         "PARSE" => {
